@@ -37,6 +37,12 @@ func SplitAdd(stores context2.Stores, repo, diamondID, splitID, dir string, extr
 
 // Commit follows `datamon diamond commit`; returns the diamond object (BundleID, descriptor)
 func Commit(stores context2.Stores, repo, diamondID string, mode model.ConflictMode, extra ...core.DiamondOption) (*core.Diamond, error) {
+	return CommitWith(stores, repo, diamondID, mode, nil, extra...)
+}
+
+// CommitWith is Commit with listing options handed to Diamond.Commit (e.g. core.BatchSize: a small page
+// size puts page boundaries where they would fall with hundreds of splits at the default size)
+func CommitWith(stores context2.Stores, repo, diamondID string, mode model.ConflictMode, commitOpts []core.Option, extra ...core.DiamondOption) (*core.Diamond, error) {
 	diamond, err := core.GetDiamond(repo, diamondID, stores, core.DiamondLogger(Nop))
 	if err != nil {
 		return nil, err
@@ -48,7 +54,7 @@ func Commit(stores context2.Stores, repo, diamondID string, mode model.ConflictM
 	}
 	opts = append(opts, extra...)
 	d := core.NewDiamond(repo, stores, opts...)
-	return d, d.Commit()
+	return d, d.Commit(commitOpts...)
 }
 
 // Cancel follows `datamon diamond cancel`
